@@ -152,9 +152,9 @@ ArgDom == {MkInt(0), MkInt(2), False}
 ParamNames == <<"p1", "p2", "p3">>
 Params(n) == SubSeq(ParamNames, 1, n)
 P(i) == Var(ParamNames[i])
-CoreKinds == {"first", "last", "sum", "rest", "restcar", "internal", "mutual", "closure", "truthy", "shadow", "hof", "quoted"}
+CoreKinds == {"first", "last", "sum", "rest", "restcar", "internal", "mutual", "closure", "truthy", "shadow", "hof", "quoted", "collect"}
 Applicable(k, n, r) ==
-  CASE k \in {"first", "internal", "closure", "truthy", "shadow", "hof"} -> n >= 1
+  CASE k \in {"first", "internal", "closure", "truthy", "shadow", "hof", "collect"} -> n >= 1
     [] k \in {"last", "sum"} -> n >= 2
     [] k \in {"rest", "restcar"} -> r
     [] OTHER -> TRUE
@@ -178,6 +178,12 @@ CoreBody(k, n) ==
     [] k = "shadow"  -> <<<<>>, <<Call("list", <<App(Fn(<<"p1">>, <<Call("list", <<Var("p1")>>)>>), <<Num(99)>>), P(1)>>)>>>>
     [] k = "hof"     -> <<<<>>, <<Call("map", <<Fn(<<"z">>, <<Call("list", <<Var("z"), P(1)>>)>>), Quote(MkList(<<MkInt(1), MkInt(2)>>))>>)>>>>
     [] k = "quoted"  -> <<<<>>, <<Quote(MkList(<<MkSym("a"), MkList(<<MkInt(1)>>), MkSym("b")>>))>>>>
+    \* a loop written with a tail call to itself: every iteration has its own bindings, which the closures made in it keep
+    [] k = "collect" ->
+         <<<<B("collect", Fn(<<"i", "acc">>, <<If3(Call("=", <<Var("i"), Num(0)>>), Var("acc"),
+                                                 Call("collect", <<Call("-", <<Var("i"), Num(1)>>),
+                                                                   Call("cons", <<Fn(<<>>, <<Call("list", <<Var("i"), P(1)>>)>>), Var("acc")>>)>>))>>))>>,
+           <<Call("map", <<Fn(<<"t">>, <<App(Var("t"), <<>>)>>), Call("collect", <<Num(3), Quote(Nil)>>)>>)>>>>
 
 CoreLambda(k, n, r) == Lam(Params(n), IF r THEN "rest" ELSE "", CoreBody(k, n)[1], CoreBody(k, n)[2])
 Selector(i) == CASE i = 1 -> "car" [] i = 2 -> "cadr" [] i = 3 -> "caddr"
